@@ -129,6 +129,8 @@ def foa_post(c):
         out.append(('denotation[qe]', Implies(Not(Q[a.i]), And(
             qexr(S1, r) == If(A[a.i], qexr(S0, a.w), qexr(S0, a.v)),
             qfar(S1, r) == If(A[a.i], qfar(S0, a.w), qfar(S0, a.v))))))
+    if c.uses is None or 'rt' in c.uses:
+        out.append(('denotation[rt]', Implies(a.v != a.w, S1.rt[absz(r)] == Or(absz(r) == RT, S0.rt[absz(a.v)], S0.rt[absz(a.w)]))))
     if c.uses is None or 'hl' in c.uses:
         out.append(('denotation[hl]', Implies(a.v != a.w, S1.hl[absz(r)] == Or(a.i == HL, S0.hl[absz(a.v)], S0.hl[absz(a.w)]))))
     return out
@@ -355,7 +357,7 @@ ORD = {'order'}
 
 def nodes_kept(S0, S1, except_terminal_level=True):
     """every node keeps shape, count and denotations; only the terminal's level may move"""
-    flds = ['lo', 'hi', 'ref', 'indeg', 'ext', 'sem', 'sem2', 'sem3', 'sem1', 'qex', 'qfa', 'hl']
+    flds = ['lo', 'hi', 'ref', 'indeg', 'ext', 'sem', 'sem2', 'sem3', 'sem1', 'qex', 'qfa', 'hl', 'rt']
     cl = [S1.dom == S0.dom, S1.minfree == S0.minfree, S1.nsucc == S0.nsucc]
     cl += [getattr(S1, f) == getattr(S0, f) for f in flds]
     cl.append(ForAll([x_], Implies(x_ != 1, S1.lvl[x_] == S0.lvl[x_]), patterns=[S1.lvl[x_]]))
@@ -380,7 +382,7 @@ def it_post(c):
 
 
 reg(Contract('dd.bdd.BDD._init_terminal', [('self', 'mgr'), ('level', 'int')], pre=it_pre, post=it_post,
-             modifies=['lvl', 'ph', 'pv', 'ref', 'dom', 'lo', 'hi', 'indeg', 'ext', 'sem', 'sem2', 'sem3', 'sem1', 'qex', 'qfa', 'hl', 'nsucc'],
+             modifies=['lvl', 'ph', 'pv', 'ref', 'dom', 'lo', 'hi', 'indeg', 'ext', 'sem', 'sem2', 'sem3', 'sem1', 'qex', 'qfa', 'hl', 'rt', 'nsucc'],
              ret='none', uses=None,
              note='verified for the call from add_var (terminal present); the call from __init__ (empty tables) is bounded'))
 
@@ -919,7 +921,7 @@ reg(Contract('FUNCQ', [('bdd', 'mgr'), ('args', 'opaque'), ('kwargs', 'opaque')]
 
 # ---------------------------------------------------------------------------------------------------------------
 # collect_garbage (C06, C02)
-KEPT_FIELDS = ['lvl', 'lo', 'hi', 'sem', 'sem2', 'sem3', 'sem1', 'qex', 'qfa', 'hl', 'ext']
+KEPT_FIELDS = ['lvl', 'lo', 'hi', 'sem', 'sem2', 'sem3', 'sem1', 'qex', 'qfa', 'hl', 'rt', 'ext']
 
 
 def survivors_kept(E, S):
@@ -1169,6 +1171,66 @@ for _flag, _ret in ((False, 'set:name'), (True, 'set:int')):
     reg(Contract('dd.bdd.BDD.support!proved:' + ('levels' if _flag else 'names'), [('self', 'mgr'), ('u', 'int'), ('as_levels', 'bool')],
                  pre=lambda c, _f=_flag: wf(c.S, c.uses) + [('ref', isref(c.S, c.a.u)), ('as_levels', c.a.as_levels == BoolVal(_f))],
                  post=support_post, ret=_ret, uses={'hl', 'order'}))
+
+
+# ---------------------------------------------------------------------------------------------------------------
+# descendants (C18): pointwise in the arbitrary node RT (family REACH); "reachable" as an inductive relation is lemma L-REACH
+def desc_complete(S, vis, from_level=None):
+    """every visited node (at or below `from_level`) is finished: it is a stored node and, if RT is reachable from it, RT is
+    visited. Nodes above `from_level` may be in progress (this makes the contract independent of whether a node is recorded
+    before or after its children)."""
+    g = vis.has[x_] if from_level is None else And(vis.has[x_], S.lvl[x_] >= from_level)
+    return ForAll([x_], Implies(g, And(S.dom[x_], x_ >= 1, Implies(S.rt[x_], vis.has[RT]))), patterns=[vis.has[x_]])
+
+
+def _desc_pre(c):
+    S, a = c.S, c.a
+    return wf(S, c.uses) + [('ref', isref(S, a.u)), ('terminal-visited', a.visited.has[1]),
+                            ('visited-complete', desc_complete(S, a.visited, lv(S, a.u)))]
+
+
+def _desc_post(c):
+    S, a = c.S0, c.a
+    v0, v1 = c.muts['visited']
+    return [('visited-grow', ForAll([x_], Implies(v0.has[x_], v1.has[x_]), patterns=[v0.has[x_], v1.has[x_]])),
+            ('contains-u', v1.has[absz(a.u)]),
+            ('complete', Implies(S.rt[absz(a.u)], v1.has[RT])),
+            ('sound', Implies(v1.has[RT], Or(v0.has[RT], S.rt[absz(a.u)]))),
+            ('new-visited-complete', ForAll([x_], Implies(And(v1.has[x_], Not(v0.has[x_])),
+                                                          And(S.dom[x_], x_ >= 1, S.lvl[x_] >= lv(S, a.u), Implies(S.rt[x_], v1.has[RT]))),
+                                            patterns=[v1.has[x_]]))]
+
+
+reg(Contract('dd.bdd.BDD._descendants', [('self', 'mgr'), ('u', 'int'), ('visited', 'set:int')],
+             pre=_desc_pre, post=_desc_post, ret='none', uses={'rt'}, mutates=['visited']))
+
+
+def desc_inv(c):
+    from z3 import Exists
+    S = c.mgrs['self']
+    vis = c.env['visited']
+    E = c.env['%enum:abs_roots']
+    kk = Int('k!desc')
+    return [('visited-complete', desc_complete(S, vis)),
+            ('terminal-visited', Implies(c.idx > c.lo, vis.has[1])),
+            ('processed-roots-visited', ForAll([k_], Implies(And(0 <= k_, k_ < c.idx), vis.has[E.arr[k_]]), patterns=[E.arr[k_]])),
+            ('sound', Implies(vis.has[RT], Exists([kk], And(0 <= kk, kk < c.idx, Or(RT == 1, S.rt[E.arr[kk]])))))]
+
+
+def desc_post(c):
+    from z3 import Exists
+    S, a, r = c.S0, c.a, c.r
+    y = Int('y!desc')
+    return [('contains-what-the-roots-reach', ForAll([x_], Implies(And(a.roots.has[x_], Or(RT == 1, S.rt[absz(x_)])), r.has[RT]),
+                                                     patterns=[a.roots.has[x_]])),
+            ('only-what-the-roots-reach', Implies(r.has[RT], Exists([y], And(a.roots.has[y], Or(RT == 1, S.rt[absz(y)]))))),
+            ('stored-nodes-only', ForAll([x_], Implies(r.has[x_], And(S.dom[x_], x_ >= 1)), patterns=[r.has[x_]]))]
+
+
+reg(Contract('dd.bdd.BDD.descendants', [('self', 'mgr'), ('roots', 'set:int')],
+             pre=lambda c: wf(c.S, c.uses) + [('roots-are-refs', ForAll([x_], Implies(c.a.roots.has[x_], isref(c.S, x_)),
+                                                                       patterns=[c.a.roots.has[x_]]))],
+             post=desc_post, ret='set:int', uses={'rt'}, loops={0: dict(inv=desc_inv, modifies_sets=['visited'])}))
 
 
 # ---------------------------------------------------------------------------------------------------------------
